@@ -653,6 +653,9 @@ class Interp:
         return VClosure(node, None, frame)
 
     def ev_IfExp(self, node, frame):
+        static = self.ctx.static_test(self, node.test, frame)
+        if static is not None:
+            return self.ev(node.body if static else node.orelse, frame)
         c = self.truthy(self.ev(node.test, frame), node)
         if self.pure:
             cs = z3.simplify(c)
@@ -830,10 +833,48 @@ class Interp:
                 if isinstance(seq, VSeq) and self.pure:
                     pass
         if isinstance(op, ast.Mod) and isinstance(a, VSeq) and a.kind in ('str', 'bytes'):
-            # "%s" % x formatting: only its type matters to the code under contract
-            r = VSeq(self.fresh('fmt', T.SeqI.sort), a.kind)
-            return r
+            return self.format_percent(a, b, node)
         raise Unsupported('operator %s on %r, %r' % (type(op).__name__, a, b), node)
+
+    def format_percent(self, fmt, arg, node):
+        """"literal %s / %d" % args.  Modelled exactly when the format is a literal made of plain text and
+        %s / %d directives applied to str / int arguments; otherwise the result is an unconstrained string."""
+        lit = self.ctx.seq_literal(fmt.t)
+        args = arg.items if isinstance(arg, VTuple) else [arg]
+        if lit is not None and fmt.kind == 'str':
+            txt = ''.join(map(chr, lit))
+            parts, i, k, ok = [], 0, 0, True
+            cur = ''
+            while i < len(txt):
+                if txt[i] == '%' and i + 1 < len(txt) and txt[i + 1] in 'sd':
+                    if cur:
+                        parts.append(self.str_lit(cur).t)
+                        cur = ''
+                    if k >= len(args):
+                        ok = False
+                        break
+                    a = self.unwrap(args[k], node)
+                    k += 1
+                    if isinstance(a, VSeq) and a.kind == 'str' and txt[i + 1] == 's':
+                        parts.append(a.t)
+                    elif isinstance(a, VInt):
+                        from .builtins_model import IntToStr
+                        parts.append(IntToStr(a.t))
+                    else:
+                        ok = False
+                        break
+                    i += 2
+                elif txt[i] == '%':
+                    ok = False
+                    break
+                else:
+                    cur += txt[i]
+                    i += 1
+            if ok and k == len(args):
+                if cur:
+                    parts.append(self.str_lit(cur).t)
+                return VSeq(T.SeqI.concat(parts), 'str')
+        return VSeq(self.fresh('fmt', T.SeqI.sort), fmt.kind)
 
     # ---- bit operations, encoded arithmetically (DESIGN.md section 2 / 3.6) -----------------
     def shift_left(self, x, k, node):
@@ -853,11 +894,14 @@ class Interp:
         raise Unsupported('right shift by a non-constant', node)
 
     def pow2_term(self, k, node):
-        """2**k for a shift amount proved to lie in 0..31 (case split)."""
+        """2**k for a symbolic shift amount: case split over the values it can take (0..31)."""
         name = self._oblname('safety:shift-range', node)
         self.prove(name, 'safety', z3.And(k >= 0, k <= 31), node)
-        t = z3.IntVal(pow2(31))
-        for j in range(30, -1, -1):
+        vals = [j for j in range(0, 32) if prover.feasible(self.axioms(True), self.st.pc, k == j, timeout_ms=500)]
+        if not vals:
+            raise PathEnd()
+        t = z3.IntVal(pow2(vals[-1]))
+        for j in reversed(vals[:-1]):
             t = z3.If(k == j, z3.IntVal(pow2(j)), t)
         return t
 
@@ -904,14 +948,20 @@ class Interp:
             return b
         if bc == 0:
             return a
-        if self.provable(a == 0):
-            return b
-        if self.provable(b == 0):
-            return a
+        cands = [(a == 0, b), (b == 0, a)]
         for j in (4, 7, 8, 16, 24, 1, 2, 3, 5, 6, 12, 20, 31, 32):
             p = pow2(j)
-            if self.provable(z3.And(a % p == 0, 0 <= b, b < p)) or self.provable(z3.And(b % p == 0, 0 <= a, a < p)):
-                return a + b
+            cands.append((z3.And(a % p == 0, 0 <= b, b < p), a + b))
+            cands.append((z3.And(b % p == 0, 0 <= a, a < p), a + b))
+        for c, r in cands:
+            if self.provable(c, timeout_ms=1000):
+                return r
+        # not decided on this path: case split on the disjointness conditions that are feasible
+        if not self.pure:
+            for c, r in cands[:10]:
+                if prover.feasible(self.axioms(True), self.st.pc, c, timeout_ms=500):
+                    if self.branch(c):
+                        return r
         # bits may overlap: fall back to the uninterpreted function (nothing provable about it but congruence)
         self.ctx.note('bit_or: disjointness not provable at line %s; uninterpreted bor used' % getattr(node, 'lineno', '?'))
         return self.ctx.bor(a, b)
